@@ -10,7 +10,7 @@ def run(ctx):
         (2, C.gen_group),
         (1, C.gen_hub),
     ]
-    return C.run_check(ctx, "C02", gens, 150, 6000, router_n=100 if ctx.quick else 3000)
+    return C.run_check(ctx, "C02", gens, 110, 6000, router_n=60 if ctx.quick else 3000)
 
 
 def replay(ctx, path):
